@@ -39,6 +39,8 @@ _STALE = ("a whole-array update that moves the items of a root array of dynamica
           "of that array, leaves the constructor handle's cached item offsets stale: reads through the old handle return other items' bytes "
           "(Array keeps a Python-side copy of the item-offset table per handle; only the updating handle is refreshed)")
 OPEN = [
+ {"status": "open", "property": "C03", "id": "C03-stale-root-handle", "feature": "root array of dynamic items + whole-array update with via != handle, then an access through the constructor handle",
+  "call_site": "xobjects/array.py Array._update / Array.__init__ (self._offsets)", "what": _STALE, "example": "known/C03_stale_root_handle.json"},
  {"status": "open", "property": "C10", "id": "C10-stale-root-handle", "feature": "root array of dynamic items + whole-array update with via != handle",
   "call_site": "xobjects/array.py Array._update / Array.__init__ (self._offsets)", "what": _STALE, "example": "known/C10_stale_root_handle.json"},
  {"status": "open", "property": "C09", "id": "C09-stale-root-handle", "feature": "root array of dynamic items + later whole-array write with via != handle",
